@@ -319,9 +319,10 @@ def check(pid, tier, seed):
             name = '%s::%s::%s' % (r['unit'], (f['function'] or '?').split(' :: ')[-1], f['kind'])
             failed_obls.append((r, f, name))
     replay_bin = None
+    search_cache = {}
     applies = lambda e: e['property'] == pid or pid in e.get('also', [])
-    need_replay = bool(failed_obls) or any(applies(e) for e in known['findings'] + known.get('fixed', [])) or any(k['status'] == 'FAILED' for k in kani_runs) or cfg.get('search_always')
-    if need_replay and os.path.exists(os.path.join(REPLAY_DIR, 'Cargo.toml.in')):
+    need_replay = bool(failed_obls) or bool(cfg.get('bounded_search')) or any(applies(e) for e in known['findings'] + known.get('fixed', [])) or any(k['status'] == 'FAILED' for k in kani_runs) or cfg.get('search_always')
+    if (need_replay or (undecided and cfg.get('search_groups'))) and os.path.exists(os.path.join(REPLAY_DIR, 'Cargo.toml.in')):
         try:
             replay_bin = replay_build()
         except Undecided as ex:
@@ -354,6 +355,52 @@ def check(pid, tier, seed):
                                                                             'note': 'a defect that was repaired in %s reproduces again' % fx['commit']})
                 violations.append(('probe::' + fx['probe'], path, True))
 
+    # ---- bounded stand-ins: exhaustive bounded enumeration on the real code for the functions between the property and the
+    # verified contracts that are not (yet) under contract; labelled bounded, never counted as discharged obligations
+    bounded_runs = []
+    if cfg.get('bounded_search') and os.path.exists(os.path.join(REPLAY_DIR, 'Cargo.toml.in')):
+        try:
+            if replay_bin is None:
+                replay_bin = replay_build()
+            for (group, bound) in cfg['bounded_search']:
+                if group in search_cache:
+                    rc, out = search_cache[group]
+                    wall = 0
+                else:
+                    rc, out, err, wall = replay_run(replay_bin, ['search', group, str(seed), '20000' if tier == 'quick' else '400000'], timeout=900)
+                    search_cache[group] = (rc, out)
+                mm = re.search(r'among (\d+) inputs', out)
+                bounded_runs.append({'group': group, 'bound': bound, 'rc': rc, 'inputs': int(mm.group(1)) if mm else None, 'wall_s': round(wall, 1)})
+                if rc == 1:
+                    m = re.search(r'FAILING-INPUT (.*)', out)
+                    if m:
+                        payload = {'property': pid, 'obligation': 'bounded stand-in %s (%s)' % (group, bound), 'kind': 'obligation', 'verifier': 'bounded enumeration on the real code',
+                                   'verifier_output': out[-2000:], 'input': json.loads(m.group(1)), 'search_output': out[-3000:]}
+                        path = write_replay_file(pid, 'bounded_' + group, payload)
+                        violations.append(('bounded::' + group, path, True))
+                elif rc != 0:
+                    undecided.append('bounded stand-in %s could not run: %s' % (group, (out + err)[-300:]))
+        except Undecided as ex:
+            undecided.append(str(ex))
+
+    if undecided and cfg.get('search_groups') and os.path.exists(os.path.join(REPLAY_DIR, 'Cargo.toml.in')):
+        try:
+            if replay_bin is None:
+                replay_bin = replay_build()
+            for group in cfg['search_groups']:
+                rc, out, err, wall = replay_run(replay_bin, ['search', group, str(seed), '20000' if tier == 'quick' else '400000'], timeout=900)
+                search_runs.append({'group': group, 'rc': rc, 'wall_s': round(wall, 1), 'reason': 'verifier undecided', 'summary': out.strip().split('\n')[-1][:300] if out.strip() else ''})
+                if rc == 1:
+                    m = re.search(r'FAILING-INPUT (.*)', out)
+                    if m:
+                        payload = {'property': pid, 'obligation': 'executable contract of search group %s (verifier undecided: %s)' % (group, undecided[0][:200]),
+                                   'kind': 'obligation', 'verifier': 'none (undecided)', 'verifier_output': undecided[0][:3000],
+                                   'input': json.loads(m.group(1)), 'search_output': out[-3000:]}
+                        path = write_replay_file(pid, 'search_' + group, payload)
+                        violations.append(('search::' + group, path, True))
+        except Undecided as ex:
+            undecided.append(str(ex))
+
     for (r, f, name) in failed_obls:
         fn_short = (f['function'] or '?')
         group = None
@@ -364,9 +411,17 @@ def check(pid, tier, seed):
         payload = {'property': pid, 'obligation': name, 'function': f['function'], 'repo_file': f['repo_file'], 'repo_lines': f['repo_lines'],
                    'unit': r['unit'], 'verifier': 'verus', 'verifier_cmd': r['cmd'], 'verifier_output': f['diagnostic'], 'kind': 'obligation'}
         found = None
-        if replay_bin and group:
-            rc, out, err, wall = replay_run(replay_bin, ['search', group, str(seed), '20000' if tier == 'quick' else '400000'], timeout=900)
-            search_runs.append({'group': group, 'rc': rc, 'wall_s': round(wall, 1), 'summary': out.strip().split('\n')[-1][:300] if out.strip() else ''})
+        groups = [group] if group else []
+        groups += [g for g in cfg.get('search_groups', []) if g not in groups]
+        for g in groups:
+            if not replay_bin or found:
+                break
+            if g in search_cache:
+                rc, out = search_cache[g]
+            else:
+                rc, out, err, wall = replay_run(replay_bin, ['search', g, str(seed), '20000' if tier == 'quick' else '400000'], timeout=900)
+                search_cache[g] = (rc, out)
+                search_runs.append({'group': g, 'rc': rc, 'wall_s': round(wall, 1), 'summary': out.strip().split('\n')[-1][:300] if out.strip() else ''})
             if rc == 1:
                 m = re.search(r'FAILING-INPUT (.*)', out)
                 if m:
@@ -438,6 +493,7 @@ def check(pid, tier, seed):
                          'smt_ms': r['smt_ms'], 'functions_checked': len(r['functions'])} for r in verus_runs],
         'vacuity_canaries': canaries,
         'kani_harnesses': [{k2: v for k2, v in k.items() if k2 not in ('tail',)} for k in kani_runs],
+        'bounded_enumeration_stand_ins': bounded_runs,
         'bounded_stand_ins': [{'harness': k['harness'], 'bound': props.BOUNDS.get(k['harness'], 'see harness'), 'status': k['status']} for k in kani_runs if not k.get('complete')],
         'functions_under_contract': sorted(set(under_contract)),
         'contracts_assumed_here_proved_elsewhere': sorted(set(assumed)),
@@ -460,6 +516,8 @@ def check(pid, tier, seed):
         print('verus %-14s %-4s verified=%d errors=%d  %.1fs' % (r['unit'], '+'.join(r['features']) or '', r['verified'], r['errors'], r['wall_s']))
     for c in canaries:
         print('canary %-13s refuted %d/%d  %.1fs' % (c['unit'], c['refuted'], c['expected'], c['wall_s']))
+    for b in bounded_runs:
+        print('bounded %-12s %s inputs=%s  [%s]' % (b['group'], 'ok' if b['rc'] == 0 else 'FAILED', b['inputs'], b['bound']))
     for k in kani_runs:
         print('kani  %-30s %s checks=%s %s %.0fs' % (k['harness'], k['status'], k.get('checks'), 'complete' if k.get('complete') else 'BOUNDED', k['wall_s']))
     if violations:
